@@ -4,6 +4,8 @@ import (
 	"bytes"
 	"encoding/json"
 	"math/rand"
+	"regexp"
+	"sort"
 	"strings"
 
 	openfgav1 "github.com/openfga/api/proto/openfga/v1"
@@ -69,6 +71,50 @@ func stripComments(s string) string {
 	return strings.Join(lines, "\n")
 }
 
+var c14CondLine = regexp.MustCompile(`^condition ([^\s(]+)\((.*)\) \{$`)
+
+// c14DocumentedOrder checks the orderings the property documents on the printed text itself.
+func c14DocumentedOrder(dsl string, modular bool, fail func(string)) {
+	sortedStrs := func(xs []string) bool { return sort.StringsAreSorted(xs) }
+	var rels, conds []string
+	flushRels := func() {
+		if !modular && !sortedStrs(rels) {
+			fail("relations of a type are not printed in name order: " + strings.Join(rels, ", "))
+		}
+		rels = nil
+	}
+	for _, line := range strings.Split(dsl, "\n") {
+		if strings.HasPrefix(line, "type ") {
+			flushRels()
+		}
+		if strings.HasPrefix(line, "    define ") {
+			rest := strings.TrimPrefix(line, "    define ")
+			if i := strings.Index(rest, ":"); i > 0 {
+				rels = append(rels, rest[:i])
+			}
+		}
+		if mm := c14CondLine.FindStringSubmatch(line); mm != nil {
+			flushRels()
+			conds = append(conds, mm[1])
+			names := []string{}
+			if mm[2] != "" {
+				for _, p := range strings.Split(mm[2], ", ") {
+					if i := strings.Index(p, ": "); i > 0 {
+						names = append(names, p[:i])
+					}
+				}
+			}
+			if !sortedStrs(names) {
+				fail("condition parameters are not printed in name order: " + strings.Join(names, ", "))
+			}
+		}
+	}
+	flushRels()
+	if !modular && !sortedStrs(conds) {
+		fail("conditions are not printed in name order: " + strings.Join(conds, ", "))
+	}
+}
+
 func c14One(c *Ctx, rng *rand.Rand, m *Model, stream string) {
 	c.R.Evaluations++
 	pm := m.Proto()
@@ -97,6 +143,9 @@ func c14One(c *Ctx, rng *rand.Rand, m *Model, stream string) {
 	if modular {
 		c.Nontrivial(canon)
 	}
+	// documented order, read off the real output independently of the port: condition parameters by
+	// name; relations of a plain (non-modular) type by name; conditions of a plain model by name
+	c14DocumentedOrder(plain, modular, func(detail string) { fail(detail, map[string]any{"dsl": plain}) })
 	// repeated calls
 	for i := 0; i < 2; i++ {
 		_, again, _ := realPrint(pm, false)
